@@ -88,7 +88,7 @@ type world struct {
 	notify    chan struct{}
 	reqNotify chan struct{}
 	backlog   []*xmltree.Node
-	reqs      map[string][]request // requests seen by the room, per occupant address
+	reqs      map[string]request // requests seen by the room, by stanza id
 	nextID    int
 }
 
@@ -97,7 +97,7 @@ func newWorld() (*world, error) {
 	if err != nil {
 		return nil, err
 	}
-	w := &world{p: p, log: &evlog{}, served: make(chan struct{}), notify: make(chan struct{}, 1), reqNotify: make(chan struct{}, 1), reqs: map[string][]request{}}
+	w := &world{p: p, log: &evlog{}, served: make(chan struct{}), notify: make(chan struct{}, 1), reqNotify: make(chan struct{}, 1), reqs: map[string]request{}}
 	w.client = &muc.Client{
 		HandleInvite: func(i muc.Invitation) {
 			w.log.add(event{Ev: "cb", Op: "invite", M: i.Reason, Text: fmt.Sprintf("jid=%s password=%q continue=%v thread=%q", i.JID, i.Password, i.Continue, i.Thread)})
@@ -115,7 +115,7 @@ func newWorld() (*world, error) {
 		w.mu.Lock()
 		if n.Name.Local == "presence" && n.Attr("to") != "" && n.Attr("type") != "error" {
 			r := request{ID: n.Attr("id"), Typ: n.Attr("type"), Addr: n.Attr("to")}
-			w.reqs[r.Addr] = append(w.reqs[r.Addr], r)
+			w.reqs[r.ID] = r
 			w.mu.Unlock()
 			w.log.add(event{Ev: "seen", Addr: r.Addr, ID: r.ID, Typ: r.Typ})
 			select {
@@ -192,37 +192,27 @@ func (w *world) expect(pred func(*xmltree.Node) bool, d time.Duration) *xmltree.
 	}
 }
 
-// nthRequest waits until the room has seen at least n requests for addr and
-// returns the n-th (1-based).
-func (w *world) nthRequest(addr string, n int, d time.Duration) (request, bool) {
+// requestSeen waits until the room has seen the request with the given id.
+func (w *world) requestSeen(id string, d time.Duration) (request, bool) {
 	dl := time.After(d)
 	for {
 		w.mu.Lock()
-		rs := w.reqs[addr]
+		r, ok := w.reqs[id]
 		w.mu.Unlock()
-		if len(rs) >= n {
-			return rs[n-1], true
+		if ok {
+			return r, true
 		}
 		select {
 		case <-w.reqNotify:
 		case <-w.loop.Done():
 			w.mu.Lock()
-			rs := w.reqs[addr]
+			r, ok := w.reqs[id]
 			w.mu.Unlock()
-			if len(rs) >= n {
-				return rs[n-1], true
-			}
-			return request{}, false
+			return r, ok
 		case <-dl:
 			return request{}, false
 		}
 	}
-}
-
-func (w *world) countRequests(addr string) int {
-	w.mu.Lock()
-	defer w.mu.Unlock()
-	return len(w.reqs[addr])
 }
 
 // barrier: a ping from the peer answered by the session.  Everything the peer
@@ -365,8 +355,7 @@ type call struct {
 	err    error
 	ch     *muc.Channel // the channel the call ran on / returned
 	gid    string       // goroutine running the call
-	// reqIndex: the call's request is the reqIndex-th the room sees for addr
-	reqIndex int
+	reqID  string       // id given to the call's presence: identifies its request at the room
 }
 
 func classifyErr(err error) (class, cond string) {
